@@ -19,8 +19,10 @@ AllTypes == {"int", "i32", "str", "float", "bool", "bytes", "list_int", "dc"}
 ArrowOf(t) == CASE t = "int" -> "int64" [] t = "i32" -> "int32" [] t = "str" -> "utf8" [] t = "float" -> "float64"
                 [] t = "bool" -> "bool" [] t = "bytes" -> "binary" [] t = "dc" -> "binary" [] t = "list_int" -> "list<int64>"
 
-Kinds   == {"unary_void", "unary_ret", "producer", "exchange"}
-Streams == {"producer", "exchange"}
+\* three stream kinds by the BASE CLASS of the state: ProducerState (is_exchange false), ExchangeState (true), and a state
+\* deriving from raw StreamState (is_exchange unknown = null).  "kind" edits between them = "change the state base class".
+Kinds   == {"unary_void", "unary_ret", "producer", "exchange", "rawstream"}
+Streams == {"producer", "exchange", "rawstream"}
 Hdrs    == {"none", "h1", "h2"}        \* h1, h2: two header dataclasses differing in ONE field's nullability
 P(n, t, nul, dflt) == [n |-> n, t |-> t, nul |-> nul, dflt |-> dflt]      \* dflt: "none" | "d1" | "d2"
 \* result types: a dataclass RESULT is left out -- how the library materialises `-> Dc` / `-> Optional[Dc]` (nullable binary /
